@@ -175,3 +175,21 @@ Contract(
     },
     properties=["C06", "C03", "C04", "C07"],
 )
+
+
+# the library model of `BeliefBase(signature, conditionals, name)` (pyvc/lib.py: a new object holding exactly these three
+# values) is what this contract proves of the real constructor
+Contract(
+    "inference.belief_base:BeliefBase.__init__",
+    params={"self": BeliefBaseT, "signature": TOpaque, "conditionals": TDict(TCnd), "name": TStr},
+    returns=TNone,
+    ensures=lambda c, r: [
+        c.field(c.self, "conditionals").keys == c.conditionals.keys,
+        c.field(c.self, "conditionals").val == c.conditionals.val,
+        c.field(c.self, "signature").t == c.signature.t,
+        c.field(c.self, "name").t == c.name.t,
+    ],
+    modifies=["self.signature", "self.conditionals", "self.name"],
+    properties=["C01", "C10"],
+    note="the constructor stores signature, conditionals and name unchanged (backs the library model of BeliefBase(...))",
+)
